@@ -25,11 +25,15 @@ type GRPCReplicationServer struct {
 	// mu guards StreamChannels: stream handlers register and unregister
 	// themselves while the sender goroutine fans messages out.
 	mu sync.Mutex
+	// streamDone[addr] is closed when the handler of that stream has exited, so
+	// that the sender never blocks on a channel nobody receives from any more.
+	streamDone map[string]chan struct{}
 }
 
 func NewGRPCReplicationServer() *GRPCReplicationServer {
 	return &GRPCReplicationServer{
 		StreamChannels: map[string]chan []byte{},
+		streamDone:     map[string]chan struct{}{},
 	}
 }
 
@@ -53,8 +57,13 @@ func (rs *GRPCReplicationServer) GetWALStream(_ *pb.GetWALStreamRequest, stream 
 	log.Info(fmt.Sprintf("new replica connection from:%s", clientAddr))
 
 	streamChannel := make(chan []byte, defaultReplicationStreamChannelSize)
+	done := make(chan struct{})
 	rs.mu.Lock()
 	rs.StreamChannels[clientAddr] = streamChannel
+	if rs.streamDone == nil {
+		rs.streamDone = map[string]chan struct{}{}
+	}
+	rs.streamDone[clientAddr] = done
 	rs.mu.Unlock()
 
 	// infinite loop
@@ -80,7 +89,9 @@ func (rs *GRPCReplicationServer) GetWALStream(_ *pb.GetWALStreamRequest, stream 
 	// its only receiver, so it is simply dropped.
 	rs.mu.Lock()
 	delete(rs.StreamChannels, clientAddr)
+	delete(rs.streamDone, clientAddr)
 	rs.mu.Unlock()
+	close(done) // a sender that snapshotted this stream just before must not block on it
 	log.Info(fmt.Sprintf("[master] closed replication connection: %v", clientAddr))
 
 	return nil
@@ -90,15 +101,23 @@ func (rs *GRPCReplicationServer) SendReplicationMessage(transactionGroup []byte)
 	// send a replication message to each replica
 	// snapshot the registered streams under the lock, send outside it (a send
 	// may block on a slow replica and must not block registration)
+	type target struct {
+		channel chan []byte
+		done    chan struct{}
+	}
 	rs.mu.Lock()
-	channels := make(map[string]chan []byte, len(rs.StreamChannels))
+	targets := make(map[string]target, len(rs.StreamChannels))
 	for ip, channel := range rs.StreamChannels {
-		channels[ip] = channel
+		targets[ip] = target{channel: channel, done: rs.streamDone[ip]}
 	}
 	rs.mu.Unlock()
 
-	for ip, channel := range channels {
+	for ip, t := range targets {
 		log.Debug("sending a replication message to %s", ip)
-		channel <- transactionGroup
+		select {
+		case t.channel <- transactionGroup:
+		case <-t.done:
+			// the stream ended after the snapshot was taken
+		}
 	}
 }
